@@ -21,28 +21,35 @@ TRACE_PLANS = {
     "C01": [("solve:base,locks,excl,unknown,cyclic", 160, 2500, "hints,async", True),
             ("solve:soft,softhints", 150, 2500, "", True),
             ("solve:hints", 150, 2500, "asynchints", True),
-            ("solve:hintcons", 1500, 9000, "", True)],
+            ("solve:hintcons", 1500, 9000, "", True),
+            ("solve:selfreq", 300, 4000, "", True),
+            ("solve:large", 40, 800, "", True)],
     "C02": [("solve:midconflict", 220, 4000, "perm,renum,act,hints", True),
             ("solve:conflict", 150, 3000, "act", True),
             ("solve:base,locks,excl,direct", 100, 2000, "perm,renum,hints,async", True),
-            ("solve:hintcons", 600, 9000, "", True)],
+            ("solve:hintcons", 600, 9000, "", True),
+            ("solve:selfreq", 300, 4000, "", True),
+            ("solve:large", 40, 800, "", True)],
     "C03": [("solve:midconflict,conflict", 260, 4000, "hints", True),
             ("solve:cyclic,locks,excl,unknown", 150, 2500, "hints", True),
-            ("solve:bigconflict", 60, 12000, "", True)],
+            ("solve:bigconflict", 60, 12000, "", True),
+            ("solve:selfcons,selfreq", 240, 4000, "", True)],
     "C04": [("solve:hintexcl,selfcons,softlone", 250, 6000, "", False),
             ("solve:cyclic,excl,locks,unknown,soft,softhints", 120, 4000, "hints", False),
             ("solve:midconflict,base", 120, 4000, "asynchints", False),
             ("solve:softconflict", 300, 6000, "", False),
             ("synth:cyclic,midconflict,base,excl,locks,unknown", 120, 2500, "", False)],
     "C05": [("solve:midconflict,conflict,direct", 250, 4000, "", True),
-            ("solve:base,cyclic", 200, 3000, "hints", True)],
+            ("solve:base,cyclic", 200, 3000, "hints", True),
+            ("solve:selfreq,hintcons", 400, 5000, "", True)],
     "C07": [("solve:clean", 500, 8000, "hints,async,perm", True),
-            ("solve:unionoverlap", 200, 3000, "hints,async", True)],
+            ("solve:unionoverlap", 200, 3000, "hints,async", True),
+            ("solve:manycands", 60, 1200, "hints", True)],
     "C08": [("solve:direct", 300, 6000, "act,hints", True),
             ("solve:direct2", 300, 6000, "act", True),
             ("template:direct", 300, 6000, "", True)],
     "C09": [("solve:clean,base,unknown", 300, 5000, "", False),
-            ("history:base,clean", 150, 3000, "", False),
+            ("history:base,clean,unknown", 200, 3000, "", False),
             ("cancel:small,hints", 4, 80, "async", False)],
     "C10": [("solve:small,base,hints,unknown", 60, 1500, "async,asynchints", False),
             ("solve:midconflict,fan", 40, 800, "async", False),
@@ -50,7 +57,7 @@ TRACE_PLANS = {
     "C11": [("solve:fan,base,clean", 90, 2000, "async,asynchints", False)],
     "C12": [("cancel:small,base,hints,soft", 7, 150, "async", False),
             ("cancel:midconflict", 3, 60, "async", False)],
-    "C13": [("history:base,hints,soft,excl,midconflict", 45, 1000, "async", True),
+    "C13": [("history:base,hints,soft,excl,midconflict,unknown", 54, 1200, "async", True),
             ("cancel:small,hints", 5, 100, "async", False)],
     "C15": [("wide:1,2,3,4,5,6,7,8,9", 1, 1, "", False),
             ("wide:15,16,17,31,32,33,40", 1, 1, "", False),
@@ -80,20 +87,20 @@ MC_PLANS = {
 ALSO = {
     "C10": ["C04_Panic", "C04_Timeout", "C04_Crash", "C09_DupDeps", "C09_DupCands", "C02_VerdictDiffers",
             "C02_UnsatButSatisfiable", "C01_V_RootReq", "C01_V_RootCons", "C01_V_Known", "C01_V_Req", "C01_V_Cons",
-            "C01_V_Excluded", "C01_V_Locked", "C01_V_OnePerName", "C01_DupInSolution"],
+            "C01_V_Excluded", "C01_V_Locked", "C01_V_OnePerName", "C01_DupInSolution", "C01_NotASolvable"],
     "C12": ["C04_Panic", "C04_Timeout", "C04_Crash"],
     "C13": ["C04_Panic", "C04_Timeout", "C04_Crash", "C09_DupDeps", "C09_DupCands", "C10_Deadlock",
             "C02_UnsatButSatisfiable", "C01_V_RootReq", "C01_V_RootCons", "C01_V_Known", "C01_V_Req", "C01_V_Cons",
-            "C01_V_Excluded", "C01_V_Locked", "C01_V_OnePerName", "C01_DupInSolution", "C01_DbNotSatisfied"],
+            "C01_V_Excluded", "C01_V_Locked", "C01_V_OnePerName", "C01_DupInSolution", "C01_NotASolvable", "C01_DbNotSatisfied"],
     "C02": ["C04_Panic", "C04_Timeout", "C04_Crash"],
     # an implied assignment whose reason is not unit survives the undo of what justified it:
     # the operational form of "dependencies of abandoned candidates are not installed"
     "C05": ["C02_ReasonIsUnit", "C02_ReasonLogged", "C04_Panic", "C04_Timeout", "C04_Crash"],
     "C06": ["C02_VerdictDiffers"],
-    "C15": ["C02_UnsatButSatisfiable", "C01_V_OnePerName", "C01_V_RootReq", "C01_V_Req", "C01_DupInSolution",
+    "C15": ["C02_UnsatButSatisfiable", "C01_V_OnePerName", "C01_V_RootReq", "C01_V_Req", "C01_DupInSolution", "C01_NotASolvable",
             "C01_DbNotSatisfied", "C04_Panic", "C04_Timeout", "C04_Crash"],
     "C14": ["C04_Panic", "C04_Timeout", "C04_Crash", "C02_UnsatButSatisfiable", "C01_V_RootReq", "C01_V_RootCons", "C01_V_Known", "C01_V_Req",
-            "C01_V_Cons", "C01_V_Excluded", "C01_V_Locked", "C01_V_OnePerName", "C01_DupInSolution",
+            "C01_V_Cons", "C01_V_Excluded", "C01_V_Locked", "C01_V_OnePerName", "C01_DupInSolution", "C01_NotASolvable",
             "C01_DbNotSatisfied"],
 }
 
